@@ -354,6 +354,76 @@ theorem matchLoop_inv (al bl : List Cmd) : MInv bl (matchLoop al bl) := by
   unfold matchLoop
   refine matchFold_inv al bl _ _ _ ⟨List.Sublist.refl _, by simp, fun q => by simp, fun c hc => by cases hc⟩
 
+theorem matchStep_prefix (al bl : List Cmd) (bp : List (String × Nat)) (acc : List Call × List Nat) (s : Nat) :
+    ∃ c, (matchStep al bl bp acc s).1 = acc.1 ++ [c] := by
+  unfold matchStep
+  split
+  · split
+    · exact ⟨_, rfl⟩
+    · exact ⟨_, rfl⟩
+  · exact ⟨_, rfl⟩
+
+theorem matchFold_prefix (al bl : List Cmd) (bp : List (String × Nat)) : ∀ (l : List Nat) (acc : List Call × List Nat),
+    ∃ cs, (l.foldl (matchStep al bl bp) acc).1 = acc.1 ++ cs := by
+  intro l
+  induction l with
+  | nil => intro acc; exact ⟨[], by simp⟩
+  | cons s ss ih =>
+    intro acc
+    simp only [List.foldl_cons]
+    obtain ⟨c, hc⟩ := matchStep_prefix al bl bp acc s
+    obtain ⟨cs, hcs⟩ := ih (matchStep al bl bp acc s)
+    exact ⟨c :: cs, by rw [hcs, hc]; simp⟩
+
+/-- A device entry whose peer occurs in `b` and in no earlier device entry gets a partner. -/
+theorem matchLoop_found (al bl : List Cmd) (pre post : List Nat) (s : Nat)
+    (hk : seqsOf al = pre ++ s :: post)
+    (ht : ∃ t ∈ seqsOf bl, peerD (grp bl t) = peerD (grp al s))
+    (hfirst : ∀ s' ∈ pre, peerD (grp al s') ≠ peerD (grp al s)) :
+    ∃ c q, (matchLoop al bl).1[pre.length]? = some c ∧ c.aIdx = idxFrom s 0 al ∧ c.bSeq = some q ∧ c.bl = grp bl q := by
+  unfold matchLoop
+  rw [hk, List.foldl_append, List.foldl_cons]
+  generalize hacc : pre.foldl (matchStep al bl (firstSeqs bl)) ([], seqsOf bl) = acc1
+  have hinv : MInv bl acc1 := by
+    rw [← hacc]
+    exact matchFold_inv al bl _ pre _ ⟨List.Sublist.refl _, by simp, (fun q => by simp), (fun c hc => by cases hc)⟩
+  have hpeer : ∀ c ∈ acc1.1, PeerCall al bl pre c := by
+    rw [← hacc]
+    exact matchFold_peer al bl pre pre _ (fun _ h => h) (fun c hc => by cases hc)
+  have hlen : acc1.1.length = pre.length := by
+    have := congrArg List.length (matchFold_aIdx al bl (firstSeqs bl) pre ([], seqsOf bl))
+    rw [hacc] at this
+    simpa using this
+  obtain ⟨cs, hcs⟩ := matchFold_prefix al bl (firstSeqs bl) post (matchStep al bl (firstSeqs bl) acc1 s)
+  rw [hcs]
+  obtain ⟨t, htm, htp⟩ := ht
+  obtain ⟨x, hx, hxe⟩ := (firstSeqs_inv bl).full t htm
+  unfold matchStep
+  cases hfind : (firstSeqs bl).find? (fun q => q.1 == peerD (grp al s)) with
+  | none =>
+    exfalso
+    have := List.find?_eq_none.mp hfind x hx
+    simp [hxe, htp] at this
+  | some q =>
+    have hqm := List.mem_of_find?_eq_some hfind
+    have hqp : q.1 = peerD (grp al s) := by simpa using List.find?_some hfind
+    have hq := mem_firstSeqs bl q hqm
+    have hin : acc1.2.contains q.2 = true := by
+      cases hc : acc1.2.contains q.2 with
+      | true => rfl
+      | false =>
+        exfalso
+        have hnot : q.2 ∉ acc1.2 := by simpa using hc
+        have := (hinv.used q.2).mpr ⟨hq.1, hnot⟩
+        obtain ⟨c, hcm, hcb⟩ := List.mem_filterMap.mp this
+        obtain ⟨s', hs', _, hall⟩ := hpeer c hcm
+        have := (hall q.2 hcb).2.1
+        exact hfirst s' hs' (by rw [← this, hq.2, hqp])
+    simp only [hin, if_true]
+    refine ⟨{ aIdx := idxFrom s 0 al, bl := grp bl q.2, bSeq := some q.2 }, q.2, ?_, rfl, rfl, rfl⟩
+    rw [List.append_assoc, List.getElem?_append_right (by omega)]
+    simp [hlen]
+
 /-! ### second loop -/
 
 theorem freshStep_shape (al bl : List Cmd) (acc : List Call × Nat × Nat) (s : Nat) :
